@@ -76,7 +76,7 @@ NAMES = [n for n, _, _ in ALPHA]
 WEIGHTS = [w for _, w, _ in ALPHA]
 dist = {"alphabet": {n: 0 for n in NAMES}, "ops": {}, "strings": 0, "strings_with_error": 0, "limit_subsets": {}, "entry": {}}
 
-def gen_string(maxitems, p_err=0.25):
+def gen_string(maxitems, p_err=0.3):
     n = rng.choice([0, 1, 1, 2, 2, 3, 3, 4, 5, 6, 8, 12, maxitems])
     items = []
     allow_err = rng.random() < p_err
@@ -90,6 +90,10 @@ def gen_string(maxitems, p_err=0.25):
             break
         dist["alphabet"][name] += 1
         items.append(it)
+    # a sequence cut short by the terminator / the length (the only place where it is not followed by a
+    # non-continuation byte)
+    if rng.random() < 0.12:
+        items.append(trunc()); dist["alphabet"]["truncated-at-end"] += 1
     dist["strings"] += 1
     if any(w is None for _, w in items): dist["strings_with_error"] += 1
     return items
@@ -244,7 +248,7 @@ else:
     # ---- separate malformed stream, last: a non-continuation byte where a continuation byte is required
     H.n = 0
     for _ in range(6 if quick else 40):
-        items = gen_string(6, p_err=0.0)
+        items = [it for it in gen_string(6, p_err=0.0) if it[1] is not None]
         lead = enc(rng.choice([0xe9, 0x5f61, 0x1f3e0]))
         cut = rng.randint(1, len(lead) - 1)
         frag = (lead[:cut] + bytes([rng.choice([0x41, 0x20, 0x7e, 0xc3, 0xe5, 0x0a, 0xff])]), None)
